@@ -207,6 +207,12 @@ class World(BaseWorld):
                             'abort_at': ro.choice([None, None, 0, 1, 3, 10, 30])})
             if ro.random() < 0.15:
                 ops.append({'op': 'check'})
+            if use_file and ro.random() < 0.35:
+                # the omega file is rewritten (or torn, lost ...) between createPRISM and the first use of that PRISM object
+                w_ = self.gen_write(ro)
+                if ro.random() < 0.6:
+                    w_.update(fault='clean', n='N')
+                ops += [{'op': 'create'}, w_, {'op': 'solve_handle', 'which': -1, 'guess': 'zeros', 'abort_at': None}]
         batch = 'fault_free' if plan['mode'] == 'real' and not use_file else 'fault_injecting'
         return {'config': {'types': types, 'kT': target['kT'], 'plan': plan, 'user': user}, 'ops': ops, 'batch': batch}
 
@@ -569,6 +575,12 @@ class World(BaseWorld):
             if P.sys is system or P.sys.domain is system.domain:
                 ctx.probe('prism_shares_objects_with_system')
             h = {'P': P, 'rec': hrec, 'step': step, 'solved': kind == 'solve', 'digest': handle_digest(pp, P) if kind == 'create' else None}
+            if kind == 'create':
+                # a second, *untouched* handle of the same moment: nothing of it is read until it is solved later, so that an
+                # implementation which defers part of the snapshot (lazy evaluation) cannot be healed by the inspection above
+                with warnings.catch_warnings():
+                    warnings.simplefilter('ignore')
+                    h['cold'] = system.createPRISM()
             if kind == 'solve':
                 Q = fresh_prism(hrec, step, site)
                 exact = self.inputs_identical(P, Q)
@@ -673,6 +685,7 @@ class World(BaseWorld):
                     continue
                 h = cand[-1] if op['which'] == -1 else cand[op['which'] % len(cand)]
                 P = h['P']
+                Pc = h.get('cold') or P          # the object that is solved: the untouched twin when there is one
                 N = h['rec']['domain']['length']
                 guess = prev_x[0] if (op.get('guess') == 'prev' and prev_x[0] is not None and prev_x[0].size == N * n * n) else None
                 if h['step'] != handles[-1]['step'] or edits_since_create[0] > 0:
@@ -690,7 +703,7 @@ class World(BaseWorld):
                             with warnings.catch_warnings():
                                 warnings.simplefilter('ignore')
                                 with np.errstate(all='ignore'):
-                                    P.solve(**kw)
+                                    Pc.solve(**kw)
                     except simroot.SolveAborted:
                         ctx.probe('solve_aborted_then_retried')
                     except Exception:
@@ -699,14 +712,26 @@ class World(BaseWorld):
                 idx = nsolve[0]
                 nsolve[0] += 1
                 Q = fresh_prism(h['rec'], step, 'solve_handle')
-                exact = self.inputs_identical(P, Q)
-                outP = self.do_solve(pp, P, sr, user, guess, idx)
+                outP = self.do_solve(pp, Pc, sr, user, guess, idx)
+                exact = self.inputs_identical(Pc, Q)
+                if not exact:
+                    # whatever the solve did, what the handle was solved *with* must be what the System held when it was created
+                    try:
+                        a = np.asarray(Pc.omega.data, dtype=float)
+                        b = np.asarray(Q.omega.data, dtype=float)
+                        bad = a.shape != b.shape or not np.all(np.abs(a - b) <= 1e-10 * np.maximum(1.0, np.abs(b)))
+                    except Exception as e:
+                        bad = True
+                    if bad:
+                        raise Violation('handle_omega_not_that_of_its_creation', 'PRISM.solve', {'created_at_step': h['step']}, step)
                 outQ = self.do_solve(pp, Q, srQ, user, guess, idx)
-                self.compare_solved(pp, P, Q, outP, outQ, exact, step, 'PRISM.solve', ctx)
+                self.compare_solved(pp, Pc, Q, outP, outQ, exact, step, 'PRISM.solve', ctx)
                 h['solved'] = True
+                if Pc is not P:
+                    ctx.probe('untouched_handle_solved_later')
                 if outP[0] is not None and getattr(outP[0], 'success', False) and np.all(np.isfinite(outP[0].x)):
                     prev_x[0] = np.array(outP[0].x, dtype=float, copy=True)
-                    ctx.raw(np.asarray(P.totalCorr.data))
+                    ctx.raw(np.asarray(Pc.totalCorr.data))
             # isolation: no unsolved handle is affected by anything that happened since it was created
             for h in handles:
                 if not h['solved'] and handle_digest(pp, h['P']) != h['digest']:
@@ -758,7 +783,7 @@ class World(BaseWorld):
                 'missing_only_closure', 'missing_only_omega', 'create_or_solve_after_edit_after_create', 'inplace_domain_length_edit',
                 'inplace_domain_edit', 'file_rewritten_between_creates', 'solve_old_handle_after_edit', 'list_x_list_assignment',
                 'converged_solve_compared', 'solve_bit_identical_to_fresh', 'sweep_guess_previous_solution', 'stale_table_at_create',
-                'rank1', 'rank2', 'rank3', 'handle_created', 'solve_aborted_then_retried']
+                'rank1', 'rank2', 'rank3', 'handle_created', 'solve_aborted_then_retried', 'untouched_handle_solved_later']
 
     def rule(self):
         return ('Each run = one seed -> an empty System (1-3 types) + a history: the assignments that establish a drawn target system (single keys '
